@@ -19,7 +19,7 @@ M = [
  ("fb_while_to_if", "pyins/filters.py", "        while measurement_times[measurement_time_index] < increment.name:", "        if measurement_times[measurement_time_index] < increment.name:", ["C09"], "violation"),
  ("ff_unique_dropped", "pyins/filters.py", "    measurement_times = np.sort(np.unique(measurement_times))\n\n    start_time = times[0]", "    measurement_times = np.sort(measurement_times)\n\n    start_time = times[0]", ["C10"], "violation"),
  ("ff_guard_removed", "pyins/filters.py", "        if next_index == index:\n            next_index += 1\n", "", ["C10"], "violation"),
- ("ff_searchsorted_left", "pyins/filters.py", "next_index = np.searchsorted(times, next_time, side='right') - 1", "next_index = np.searchsorted(times, next_time, side='left') - 1", ["C10"], "violation"),
+ ("ff_searchsorted_left", "pyins/filters.py", "next_index = np.searchsorted(times, next_time, side='right') - 1", "next_index = np.searchsorted(times, next_time, side='left') - 1", ["C10"], "quiet-or-drift"),   # shorter steps only: still a valid result index
  ("int_resize_2x_only", "pyins/strapdown.py", "new_size = max(2 * size, required_size)", "new_size = 2 * size", ["C02"], "violation"),
  ("int_resize_ge", "pyins/strapdown.py", "        if required_size > size:", "        if required_size >= size:", ["C02"], "quiet-or-drift"),
  ("int_resize_exact_fit", "pyins/strapdown.py", "new_size = max(2 * size, required_size)", "new_size = required_size", ["C02"], "quiet-or-drift"),
